@@ -1086,7 +1086,7 @@ const HEADROOM_FAMILIES: usize = 6;
 
 fn headroom_compare(client: &mut vsim::coresim::refproc::RefClient, family: usize, depth: usize, stack_kib: u64, cfg: vsim::oracle::Cfg) -> std::io::Result<Option<String>> {
     use vsim::coresim::{Call, Op, Res};
-    let call = Call { op: Op::Content, doc: 0, cfg, feed_prev: false, via_clone: false, nest: None };
+    let call = Call { op: Op::Content, doc: 0, cfg, feed_prev: false, via_clone: false, nest: None, own_source: false };
     let text = headroom_doc(family, depth);
     let small = client.query_on_stack(&call, &text, Some(stack_kib))?;
     if small == Res::Panic {
@@ -1126,7 +1126,7 @@ fn headroom_lane(thorough: bool) -> HeadroomOutcome {
     for family in 0..HEADROOM_FAMILIES {
         for &kib in stacks {
             let cfg = cfgs[(family + kib as usize) % 2];
-            let call = Call { op: Op::Content, doc: 0, cfg, feed_prev: false, via_clone: false, nest: None };
+            let call = Call { op: Op::Content, doc: 0, cfg, feed_prev: false, via_clone: false, nest: None, own_source: false };
             let mut dies = |d: usize, client: &mut vsim::coresim::refproc::RefClient| -> std::io::Result<bool> { Ok(client.query_on_stack(&call, &headroom_doc(family, d), Some(kib))? == Res::Panic) };
             // exponential search, then bisection
             let mut lo = 8usize;
@@ -1220,6 +1220,20 @@ fn soak_call(k: u64) -> (String, vsim::coresim::Call) {
         "#figure(box(`xxxxxxxxxxxxxxxxxxxxxxxxxxxxxxxxxxxxxxxxxxxxxxxx                                                                      \nsecond`))\n"];
     const WRITERS: &[&str] = &["// @typstyle off\n#let   a=(1,2 ,3)\n", "#f(\n  1, /* @typstyle off */ (2,3))\n"];
     const READERS: &[&str] = &["// typstyle note\n#let   a=(1,2 ,3)\n", "#f(1, /* typstyle note */ (2,3))\n"];
+    // Long recycling periods (a 16-bit generation counter): between a writer and the reader
+    // 65 536 calls later there are hundreds of other writers of the same shape, so the random
+    // mix above never isolates such a pair. A deterministic sub-sequence does: about a thousand
+    // residues per 65 536 calls carry a family of 150 shapes (n filler lines before the item, so
+    // that the item's span numbers differ from shape to shape); at residue r the writer twin in
+    // even periods and the reader twin in odd ones, at residue r+1 always the reader twin (which
+    // records the right answer before anything can have been recycled).
+    let p16 = k % 65536;
+    if p16 % 61 == 7 || p16 % 61 == 8 {
+        let n = ((p16 / 61) % 150) as usize;
+        let writer = p16 % 61 == 7 && (k / 65536) % 2 == 0;
+        let text = format!("{}{}", "#let v = 1\n".repeat(n), if writer { WRITERS[0] } else { READERS[0] });
+        return (text, vsim::coresim::Call { op: Op::Content, doc: 0, cfg: vsim::oracle::Cfg::default(), feed_prev: false, via_clone: false, nest: None, own_source: false });
+    }
     let mut st = k ^ 0x50A4;
     let r = vsim::rng::splitmix(&mut st);
     let pick = r % 1000;
@@ -1237,7 +1251,7 @@ fn soak_call(k: u64) -> (String, vsim::coresim::Call) {
         6..=8 => Op::Source,
         _ => Op::Width,
     };
-    (text, vsim::coresim::Call { op, doc: 0, cfg, feed_prev: false, via_clone: false, nest: None })
+    (text, vsim::coresim::Call { op, doc: 0, cfg, feed_prev: false, via_clone: false, nest: None, own_source: false })
 }
 
 fn cmd_soak(args: &[String]) -> i32 {
